@@ -3,7 +3,10 @@
    Model: Face/Stream.v (fw/face/stream-transport.go readTlvStream; std/engine/face/stream_face.go Run).
    `run true stream sched` = (result, frames handed to onFrame, bytes consumed, final buffer state); a schedule item
    RReq k is a Read returning min(k, free buffer space, bytes remaining) bytes (so every partition of the stream into
-   reads, including zero-byte reads, is a schedule), RIgn a Read failing with an ignorable error. *)
+   reads, including zero-byte reads, is a schedule), RIgn k a Read failing with an ignorable error and returning k bytes.
+   The theorems are stated for schedules whose failing reads carry no data (ign_nodata: what net.Conn does); data returned
+   TOGETHER with an ignorable error is kept by the model (and by the code) and parsed at the next successful read - that
+   case is covered by the differential run and the oracle (`wf-ign-data` cases), not by these theorems. *)
 From Base Require Import Bytes VarNum.
 From Face Require Import GenConsts Stream StreamProofs.
 Open Scope N_scope.
@@ -13,7 +16,7 @@ Open Scope N_scope.
    every read schedule, the framer does not fail, the frames handed up are exactly the leading blocks that are
    complete within the consumed bytes (bs = frames ++ rs: byte-identical, in order, none lost, duplicated, split or
    merged), and the unread remainder p is a strict prefix of the next block sitting at the front of the buffer. *)
-Theorem framing_exact : forall bs sched, Forall wf_block bs ->
+Theorem framing_exact : forall bs sched, Forall ign_nodata sched -> Forall wf_block bs ->
   exists frames rs p consumed,
     run true (concat bs) sched = (SOk, frames, consumed, mkS 0 p) /\
     bs = frames ++ rs /\ strictpre p rs /\
@@ -22,7 +25,7 @@ Proof. exact framing_exact_lemma. Qed.
 Print Assumptions framing_exact.
 
 (* Once all bytes have been read, all blocks have been handed up. *)
-Theorem framing_complete : forall bs sched, Forall wf_block bs ->
+Theorem framing_complete : forall bs sched, Forall ign_nodata sched -> Forall wf_block bs ->
   snd (fst (run true (concat bs) sched)) = lenN (concat bs) ->
   fst (fst (fst (run true (concat bs) sched))) = SOk /\ snd (fst (fst (run true (concat bs) sched))) = bs.
 Proof. exact framing_complete_lemma. Qed.
@@ -31,7 +34,7 @@ Print Assumptions framing_complete.
 (* Moving the unread bytes to the front never loses part of a block, and the buffer never fills up (a Read is never
    handed an empty slice): after any run the parse offset is 0, fewer than MaxNDNPacketSize bytes are unread and the
    write offset is strictly inside the buffer. *)
-Theorem compaction_safe_never_full : forall bs sched, Forall wf_block bs ->
+Theorem compaction_safe_never_full : forall bs sched, Forall ign_nodata sched -> Forall wf_block bs ->
   let st := snd (run true (concat bs) sched) in
   tlvOff st = 0 /\ lenN (unread st) < c_MaxNDNPacketSize /\ recvOff st < c_recvBufSize.
 Proof. exact compaction_safe_never_full_lemma. Qed.
@@ -84,7 +87,7 @@ Example c11_example :
   let bs := [mk_block 6 [1;2;3]; mk_block 800 (repeat 7 300); mk_block 5 []] in
   Forall wf_block bs /\
   snd (fst (fst (run true (concat bs) (rep_item (RReq 1) 400 [])))) = bs /\
-  snd (fst (fst (run true (concat bs) [RReq 0; RIgn; RReq 100000]))) = bs.
+  snd (fst (fst (run true (concat bs) [RReq 0; RIgn 0; RReq 100000]))) = bs.
 Proof.
   split.
   - repeat (apply Forall_cons; [apply mk_block_wf; [vm_compute; reflexivity|vm_compute; discriminate]|]). apply Forall_nil.
